@@ -114,7 +114,7 @@ func (c06) Run(ts *tape.Set, tier Tier) *Result {
 		res.probe("dir-entity")
 		res.probe("entries-have-blocks")
 	} else {
-		spec := gen.DrawFileSpec(shape, gen.FileOpts{MaxSize: 6 << 10, AllowOdd: true})
+		spec := gen.DrawFileSpec(shape, gen.FileOpts{MaxSize: 6 << 10, AllowOdd: true, AllowNoSizes: true})
 		root, _, err := gen.WriteFile(st, spec)
 		if err != nil {
 			res.Skipped, res.SkipReason = true, err.Error()
@@ -307,6 +307,27 @@ func (c06) Run(ts *tape.Set, tier Tier) *Result {
 			}
 		}
 		if err == nil {
+			// success is acceptable only if every entity block was, in the end,
+			// delivered by the store (a transient fault absorbed by a later,
+			// successful request for the same block leaves nothing partial)
+			okLoaded := map[string]bool{start.KeyString(): true}
+			for _, e := range st.Log {
+				if e.Kind == "ReadOpen" && e.Outcome == "ok" {
+					if c, cerr := cid.Decode(e.Cid); cerr == nil {
+						okLoaded[c.KeyString()] = true
+					}
+				}
+			}
+			complete := true
+			for _, c := range order {
+				if !okLoaded[c.KeyString()] {
+					complete = false
+				}
+			}
+			if complete {
+				res.probe("transient-fault-absorbed-by-reload")
+				continue
+			}
 			sc.Failed = p.String()
 			var hs []string
 			for _, h := range hit {
